@@ -162,6 +162,8 @@ RECIPES = {
     "tz_idx_london": dict(n=36, offsets=[0, 20], v=1, page=64, stats="auto", an=None, tz=("tl", "tu"), index="tl"),
     "tz_idx_utc_hive": dict(n=36, offsets=[0, 18], v=2, page=None, stats=True, an=None, tz=("tu", "tk"), index="tu",
                             scheme="hive", parts=["pi"]),
+    # tz-aware columns AND a row group of exactly ONE row (rows 0:3, 3:4, 4:7): single-row reads of tz-aware blocks (seed C06-m14)
+    "tz_one_row_rg": dict(n=7, offsets=[0, 3, 4], v=1, page=None, stats="auto", an=None, tz=("tl", "tu")),
     # column chunks of SEVERAL data pages (30 rows per row group, MAX_PAGE_SIZE=64: 5 pages for the 8-byte columns,
     # other page boundaries for text / bool / categorical), v1 and v2
     "pages_v1":   dict(n=60, offsets=[0, 30], v=1, page=64, stats=True, an=("Int64", (30, 45))),
@@ -181,6 +183,7 @@ QUICK = ["flat1", "flat3", "flat4v2", "flat2v2", "hive0", "hive_pi", "hive_ps_pb
 TZ = ["tz_data", "tz_idx_london", "tz_idx_utc_hive"]        # not part of QUICK: used by the modules that ask for them
 LONG_TEXT = ["long_text", "long_text_hive_v2"]             # asked for by c05
 PAGES = ["pages_v1", "pages_v2", "pages_v1_tiny"]                           # not part of QUICK either (c13 asks for them)
+TZ_ONE_ROW = ["tz_one_row_rg"]                              # not part of QUICK: c06 asks for it (seed C06-m14)
 CAT_GROWS = ["cat_grows"]                                    # not part of QUICK: c06 asks for it (seed C06-m12)
 
 FOREIGN = ["nation.plain.parquet", "nation.dict.parquet", "nation.impala.parquet", "snappy-nation.impala.parquet",
